@@ -91,9 +91,9 @@ def readChanged (asg : List Asg) : List (Oid × Name × Val) → List (Oid × Na
   | [], [] => false
   | a :: as, b :: bs =>
     (if (a.1, a.2.1) = (b.1, b.2.1) then
-       (match asg.find? (fun x => (x.1, x.2.1) = (a.1, a.2.1)) with
-        | some x => !valEq x.2.2.1 x.2.2.2
-        | none => false)
+       -- same place read before and after: changed iff some assignment of the step to it changed it
+       -- (a key may be assigned more than once inside a batch block)
+       asg.any (fun x => (x.1, x.2.1) = (a.1, a.2.1) && !valEq x.2.2.1 x.2.2.2)
      else !valEq a.2.2 b.2.2) ||
       readChanged asg as bs
   | _, _ => true
@@ -105,7 +105,7 @@ def graphStep (g : List PObj) : Step → List PObj
     match g[o]? with
     | some ob => g.set o { ob with vals := setVals ob.vals p v }
     | none => g
-  | .update o kvs =>
+  | .update o kvs | .discard o kvs =>
     kvs.foldl (fun g kv => match g[o]? with
       | some ob => g.set o { ob with vals := setVals ob.vals kv.1 kv.2 }
       | none => g) g
@@ -113,7 +113,7 @@ def graphStep (g : List PObj) : Step → List PObj
 def stepAssignments (wb : PWorld) : Step → List Asg
   | .new _ _ => []
   | .set o p v => [(o, p, (getParam wb o p).getD .none, v)]
-  | .update o kvs => kvs.map (fun kv => (o, kv.1, (getParam wb o kv.1).getD .none, kv.2))
+  | .update o kvs | .discard o kvs => kvs.map (fun kv => (o, kv.1, (getParam wb o kv.1).getD .none, kv.2))
 
 def methodsOf (classes : List PClass) (g : List PObj) : List (Oid × PMethod) :=
   (g.zipIdx.flatMap fun (ob, i) => match classes[ob.cls]? with | some c => c.methods.map (fun m => (i, m)) | none => [])
@@ -125,6 +125,7 @@ def judgeMethod (i : Nat) (wb wa : PWorld) (st : Step) (obs : PStepObs) (t : Oid
   let fires : Option String :=
     match st with
     | .new _ _ => if got = 0 then none else some s!"fires step={i} owner={t} method={m.name} expected=0 got={got} (construction)"
+    | .discard _ _ => if got = 0 then none else some s!"fires step={i} owner={t} method={m.name} expected=0 got={got} (events discarded)"
     | _ =>
       let asg := stepAssignments wb st
       let touched := m.specs.any (fun s => asg.any (fun x => (readPairs wb t s).contains (x.1, x.2.1)))
